@@ -293,6 +293,7 @@ pub fn exec_more(ev: &Value) -> Value {
             let flags = ev.get("flags").map(|f| (f["f"].as_str().expect("flags.f"), f["w"].as_u64().expect("flags.w") as usize));
             let text = match (kind, form) {
                 ("debug_alt", _) => format!("{:#?}", a),
+                ("debug", _) => format!("{:?}", a),
                 ("sci", "string") => a.to_scientific_notation(),
                 ("sci", "write") => { let mut s = String::new(); a.write_scientific_notation(&mut s).expect("write"); s }
                 ("eng", "string") => a.to_engineering_notation(),
